@@ -1,0 +1,16 @@
+//go:build !verif
+// +build !verif
+
+// Package verifhook provides named hook points for external runtime
+// verification. Without the `verif` build tag every function is an empty
+// inlinable stub, so the production build carries no behaviour from it.
+package verifhook
+
+// Enabled reports whether hooks are compiled in.
+const Enabled = false
+
+// Point marks a schedule point.
+func Point(name string, args ...interface{}) {}
+
+// Event reports a value-carrying event.
+func Event(name string, args ...interface{}) {}
